@@ -480,3 +480,21 @@ func ttlClose(a, b string) bool {
 	y, e2 := strconv.ParseInt(b[ib+1:], 10, 64)
 	return e1 == nil && e2 == nil && x > 0 && y > 0 && x-y <= 2 && y-x <= 2
 }
+
+func TestKnownGeoradiusRepeatedOption(t *testing.T) {
+	known.Probe(t, "C11-georadius-repeated-option-malformed-reply", func() (v bool, detail string) {
+		sim, err := simkv.New(simkv.Options{Engine: "mem"})
+		if err != nil {
+			return false, "HARNESS: " + err.Error()
+		}
+		defer sim.Close()
+		sim.Do("geoadd", "default:t:k", "13.361389", "38.115556", "a", "15.087269", "37.502669", "b")
+		for _, opt := range []string{"withdist", "withcoord", "withhash"} {
+			r := sim.Do("georadius", "default:t:k", "15", "37", "200", "km", opt, opt)
+			if r.Malformed != "" {
+				return true, "GEORADIUS k 15 37 200 km " + opt + " " + opt + " writes a malformed reply: " + r.Malformed
+			}
+		}
+		return false, ""
+	})
+}
